@@ -230,6 +230,33 @@ theorem inst_wellformed :
     0 < shippedMicro.cc1 ∧ shippedMicro.cc1 < shippedMicro.cc2 ∧ 0 < shippedMicro.diel2 ∧ shippedMicro.diel2 ≤ shippedMicro.diel1 ∧
     0 ≤ shippedMicro.cscale ∧ shippedMicro.bbd2 < shippedMicro.bbd1 ∧ 0 ≤ shippedMicro.bbscale ∧ 0 < energy_UNK_MIN_DISTANCE := by decide
 
+/-- the shipped parameter set as real numbers (the generated table holds millionths) -/
+noncomputable def shippedReal : EP ℝ :=
+  let r (z : ℤ) : ℝ := (z : ℝ) / 1000000
+  { nmin := r shippedMicro.nmin, nmax := r shippedMicro.nmax, surf := r shippedMicro.surf, prefactor := r shippedMicro.prefactor,
+    allowance := r shippedMicro.allowance, cc1 := r shippedMicro.cc1, cc2 := r shippedMicro.cc2, diel1 := r shippedMicro.diel1,
+    diel2 := r shippedMicro.diel2, cscale := r shippedMicro.cscale, bbd1 := r shippedMicro.bbd1, bbd2 := r shippedMicro.bbd2,
+    bbscale := r shippedMicro.bbscale, fmin := r shippedMicro.fmin, minDist4 := 1 }
+
+theorem micro_lt (a b : ℤ) (h : a < b) : (a : ℝ) / 1000000 < (b : ℝ) / 1000000 :=
+  div_lt_div_of_pos_right (by exact_mod_cast h) (by norm_num)
+theorem micro_le (a b : ℤ) (h : a ≤ b) : (a : ℝ) / 1000000 ≤ (b : ℝ) / 1000000 :=
+  div_le_div_of_nonneg_right (by exact_mod_cast h) (by norm_num)
+
+/-- **The parametric kernel theorems apply to the shipped parameter file**: the hypotheses collected in `WellFormed` follow
+    from the integer facts decided on the regenerated tables. -/
+theorem shipped_wellformed : WellFormed shippedReal := by
+  obtain ⟨h1, h2, h3, h4, h5, h6, h7, h8, h9, h10, h11, _⟩ := inst_wellformed
+  have z : ((0:ℤ) : ℝ) / 1000000 = 0 := by norm_num
+  refine ⟨micro_lt _ _ h1, ?_, ?_, ?_, ⟨?_, micro_lt _ _ h6⟩, ⟨?_, micro_le _ _ h8⟩, ?_, micro_lt _ _ h10, ?_, by simp [shippedReal]⟩
+  · have := micro_le _ _ h2; simpa [shippedReal, z] using this
+  · have := micro_le _ _ h3; norm_num at this; simpa [shippedReal] using this
+  · have := micro_le _ _ h4; simpa [shippedReal, z] using this
+  · have := micro_lt _ _ h5; simpa [shippedReal, z] using this
+  · have := micro_lt _ _ h7; simpa [shippedReal, z] using this
+  · have := micro_le _ _ h9; simpa [shippedReal, z] using this
+  · have := micro_le _ _ h11; simpa [shippedReal, z] using this
+
 /-- van der Waals volumes are positive, cut-off pairs are ordered, every titratable kind has charge ±1 -/
 theorem inst_tables : (∀ kv ∈ f_VanDerWaalsVolume, 0 < kv.2) ∧ scDefault.1 < scDefault.2 ∧ (∀ e ∈ scPairs, e.2.2.1 < e.2.2.2) ∧
     (∀ kv ∈ titratableKinds, ((f_charge.find? (fun c => c.1 == kv.2)).map (·.2)) ∈ [some 1000000, some (-1000000)]) ∧
